@@ -48,7 +48,7 @@ def run_real(sc, base, timeout=2, fork_on_hang=False, passes=None, mode='each'):
     spec = os.path.join(base, 'spec-%s.json' % os.path.basename(work))
     log = spec + '.log'
     with open(spec, 'w') as f:
-        json.dump({'names': names, 'rules': sc['rules'], 'log': log, 'fork_on_hang': fork_on_hang, 'noise': sc.get('noise', 0)}, f)
+        json.dump({'names': names, 'rules': sc['rules'], 'log': log, 'fork_on_hang': fork_on_hang, 'noise': sc.get('noise', 0), 'slow_s': sc.get('slow_s', 1.2)}, f)
     script = os.path.join(work, 'test.sh')
     with open(script, 'w') as f:
         f.write('#!/bin/sh\nexec /venv/bin/python %s %s\n' % (os.path.join(os.path.dirname(os.path.abspath(__file__)), 'testscript.py'), spec))
